@@ -546,20 +546,30 @@ def unpackAgent (ints globs : List Int) (dbls : List (Option α)) : Option (Agen
 /-- the agents rank `r` ships, by increasing slot -/
 def leaving (r : Nat) (a : Agents α) : List (Nat × AgentP α) := a.act.filter fun p => p.2.dest != (r : Int)
 
-/-- `ref_agents_migrate` on every rank: `none` destination outside the world is an error of the blind send -/
-def migrate (w : World (Agents α)) : Except ISt (World (Agents α)) := do
+/-- fill a new slot per received record triple, in receive order -/
+def receiveAgents (a : Agents α) (recs : List (List Int × List Int × List (Option α))) : Except ISt (Agents α) :=
+  recs.foldlM (fun (a : Agents α) rec =>
+    match unpackAgent rec.1 rec.2.1 rec.2.2 with
+    | some ag => .ok (a.push ag).2
+    | none => .error .failure) a
+
+/-- `ref_agents_migrate` on every rank: the agents whose destination is another rank are packed by increasing slot and
+    removed, three blind sends (`REF_INT` x `n_ints`, `REF_GLOB` x `n_globs`, `REF_DBL` x `n_dbls`), one new agent per
+    received record.  A destination outside the world is an error (the C would index `a_size` out of bounds). -/
+def migrate (w : World (Agents α)) : Except ISt (World (Agents α)) :=
   let out : World (List (Nat × AgentP α)) := w.mapIdx fun r a => leaving r a
-  if out.any (fun l => l.any fun p => p.2.dest < 0 || p.2.dest ≥ (w.length : Int)) then throw .failure
-  let ints ← blindItems RefType.int InterpConsts.nInts (out.map fun l => l.map fun p => (p.2.dest.toNat, (packAgent p.2).1))
-  let globs ← blindItems RefType.long InterpConsts.nGlobs (out.map fun l => l.map fun p => (p.2.dest.toNat, (packAgent p.2).2.1))
-  let dbls ← blindItems RefType.dbl InterpConsts.nDbls (out.map fun l => l.map fun p => (p.2.dest.toNat, (packAgent p.2).2.2))
-  let stay : World (Agents α) := (w.zip out).map fun q => (q.2.map (·.1)).foldl Agents.remove q.1
-  collect ((stay.zip (ints.zip (globs.zip dbls))).map fun q =>
-    let recs := q.2.1.zip (q.2.2.1.zip q.2.2.2)
-    recs.foldlM (fun (a : Agents α) rec =>
-      match unpackAgent rec.1 rec.2.1 rec.2.2 with
-      | some ag => .ok (a.push ag).2
-      | none => .error .failure) q.1)
+  if out.any (fun l => l.any fun p => p.2.dest < 0 || p.2.dest ≥ (w.length : Int)) then .error .failure else
+  let pairs : World (List (Nat × AgentP α)) := out.map fun l => l.map fun p => (p.2.dest.toNat, p.2)
+  match blindItems RefType.int InterpConsts.nInts (pairs.map fun l => l.map fun y => (y.1, (packAgent y.2).1)),
+        blindItems RefType.long InterpConsts.nGlobs (pairs.map fun l => l.map fun y => (y.1, (packAgent y.2).2.1)),
+        blindItems RefType.dbl InterpConsts.nDbls (pairs.map fun l => l.map fun y => (y.1, (packAgent y.2).2.2)) with
+  | .ok ints, .ok globs, .ok dbls =>
+    let stay : World (Agents α) := (w.zip out).map fun q => (q.2.map (·.1)).foldl Agents.remove q.1
+    collect ((stay.zip (ints.zip (globs.zip dbls))).map fun q =>
+      receiveAgents q.1 (q.2.1.zip (q.2.2.1.zip q.2.2.2)))
+  | .error e, _, _ => .error e
+  | _, .error e, _ => .error e
+  | _, _, .error e => .error e
 
 /-! ## stage 2: `ref_interp_process_agents` -/
 
